@@ -112,6 +112,10 @@ def run(rep, tier):
                 for e in r['extra']['exits']:
                     where = '%s [%s] (%s)' % (f, r['label'], tag)
                     sp = e['sizep']
+                    if r['label'].endswith('nulltext'):
+                        rep.ob(e['ret'] == 0, '%s:SIZE-PROTOCOL:null' % f,
+                               'C13 %s can return %r for a NULL buffer (a size query must return false and report the required size)' % (where, e['ret']),
+                               'path:\n  ' + '\n  '.join(e['path']), sample={'exit': 'NULL buffer', 'returns': e['ret'], 'entry': r['label']})
                     if e['ret'] == 1:
                         rep.ob(sp is not None and sp[0] == 'eq', '%s:SIZE-PROTOCOL:true' % f,
                                'C13 %s returns true but *size is not the text length (last store through size: %s)' % (where, sp),
